@@ -257,6 +257,47 @@ func tableDefault(c *Ctx, p *packages.Package, init ast.Expr) (constant.Value, m
 						}
 					}
 				}
+			case *ast.ForStmt:
+				// for i := 0; i < len(t) (or the array length); i++ { t[i] = C }
+				as0, ok := s.Init.(*ast.AssignStmt)
+				if !ok || len(as0.Lhs) != 1 || len(s.Body.List) != 1 {
+					return nil, nil, false
+				}
+				if k, ok := constInt(p, as0.Rhs[0]); !ok || k != 0 {
+					return nil, nil, false
+				}
+				cond, ok := s.Cond.(*ast.BinaryExpr)
+				if !ok || cond.Op != token.LSS {
+					return nil, nil, false
+				}
+				full := false
+				if k, ok := constInt(p, cond.Y); ok && tbl != nil {
+					if arr, isArr := tbl.Type().Underlying().(*types.Array); isArr && arr.Len() == k {
+						full = true
+					}
+				}
+				if !full {
+					return nil, nil, false
+				}
+				as, ok := s.Body.List[0].(*ast.AssignStmt)
+				if !ok || len(as.Lhs) != 1 || as.Tok != token.ASSIGN {
+					return nil, nil, false
+				}
+				ix, ok := as.Lhs[0].(*ast.IndexExpr)
+				if !ok {
+					return nil, nil, false
+				}
+				bid, ok1 := unparen(ix.X).(*ast.Ident)
+				iid, ok2 := unparen(ix.Index).(*ast.Ident)
+				kid, ok3 := as0.Lhs[0].(*ast.Ident)
+				if !ok1 || !ok2 || !ok3 || p.TypesInfo.ObjectOf(bid) != tbl || p.TypesInfo.ObjectOf(iid) != p.TypesInfo.ObjectOf(kid) {
+					return nil, nil, false
+				}
+				v := constOf(p, as.Rhs[0])
+				if v == nil || len(explicit) > 0 {
+					return nil, nil, false
+				}
+				def = v
 			case *ast.RangeStmt:
 				id, ok := unparen(s.X).(*ast.Ident)
 				if !ok || p.TypesInfo.ObjectOf(id) != tbl || len(s.Body.List) != 1 || s.Value != nil {
@@ -476,7 +517,25 @@ func ruleRawLine(c *Ctx, rule string, shorts ...string) {
 								work = append(work, r)
 							}
 						case "len":
-							note(r, "len() of the untrimmed line")
+							// an emptiness test (nothing accumulated yet) is not a classification
+							onlyZero := true
+							for _, lr := range *r.Referrers() {
+								bo, ok := lr.(*ssa.BinOp)
+								if !ok {
+									if _, dbg := lr.(*ssa.DebugRef); !dbg {
+										onlyZero = false
+									}
+									continue
+								}
+								kx, okx := constIntVal(bo.X)
+								ky, oky := constIntVal(bo.Y)
+								if !((okx && kx == 0) || (oky && ky == 0)) {
+									onlyZero = false
+								}
+							}
+							if !onlyZero {
+								note(r, "len() of the untrimmed line")
+							}
 						default:
 							note(r, b.Name()+"() of the untrimmed line")
 						}
@@ -516,7 +575,11 @@ func ruleRawLine(c *Ctx, rule string, shorts ...string) {
 		}
 		switch {
 		case sink != nil:
-			c.bad(rule, key, sink.Pos(), "the line assembled from ReadLine fragments reaches "+what+" before bytes.TrimSpace (or an equivalent trim) has removed trailing blanks: a line that differs only by trailing whitespace (or the CR of a CRLF terminator cut in two by the buffer) is classified or compared differently")
+			spos := sink.Pos()
+			if !spos.IsValid() {
+				spos = call.Pos()
+			}
+			c.bad(rule, key, spos, "the line assembled from ReadLine fragments reaches "+what+" before bytes.TrimSpace (or an equivalent trim) has removed trailing blanks: a line that differs only by trailing whitespace (or the CR of a CRLF terminator cut in two by the buffer) is classified or compared differently")
 		case normalised == 0:
 			c.bad(rule, key, call.Pos(), "the assembled line is never trimmed")
 		default:
@@ -808,7 +871,7 @@ func ruleMirrorTerms(c *Ctx, rule string, names ...string) {
 			// lengths in terms of ends
 			got = got.subst(recv+".Len()", linAtom(recv+".End()").add(linAtom(recv+".Start()"), -1))
 			got = got.subst(row+".Len()", linAtom(row+".End()").add(linAtom(row+".Start()"), -1))
-			want := linAtom(recv + ".Start()").add(linAtom(recv+".End()"), 1).add(linAtom(row+".End()"), -1)
+			want := linAtom(recv+".Start()").add(linAtom(recv+".End()"), 1).add(linAtom(row+".End()"), -1)
 			if got.equal(want) {
 				c.ok(rule, key, s.call.Pos(), "the row's new offset is "+want.String()+": its interval reflected about the alignment's span")
 			} else {
@@ -852,11 +915,20 @@ func ruleStrandNeg(c *Ctx, rule string, targets [][2]string) {
 				if !ok || structFieldName(fa.X.Type(), fa.Field) != "Strand" {
 					continue
 				}
-				neg, ok := st.Val.(*ssa.UnOp)
-				if !ok || neg.Op != token.SUB {
-					continue
+				var negated ssa.Value
+				switch nv := st.Val.(type) {
+				case *ssa.UnOp:
+					if nv.Op == token.SUB {
+						negated = nv.X
+					}
+				case *ssa.BinOp:
+					if k, ok := constIntVal(nv.Y); ok && k == -1 && nv.Op == token.MUL {
+						negated = nv.X
+					} else if k, ok := constIntVal(nv.X); ok && ((k == -1 && nv.Op == token.MUL) || (k == 0 && nv.Op == token.SUB)) {
+						negated = nv.Y
+					}
 				}
-				ld, ok := neg.X.(*ssa.UnOp)
+				ld, ok := negated.(*ssa.UnOp)
 				if !ok || ld.Op != token.MUL {
 					continue
 				}
@@ -921,7 +993,7 @@ func ruleSliceBounds(c *Ctx, rule string) {
 	src := fn.Params[1]
 	srcN := src.Name()
 	lenAtom := srcN + ".Slice().Len()"
-	lenRepl := linAtom(srcN + ".End()").add(linAtom(srcN+".Start()"), -1)
+	lenRepl := linAtom(srcN+".End()").add(linAtom(srcN+".Start()"), -1)
 	norm := func(l lin) lin { return l.subst(lenAtom, lenRepl) }
 	n := 0
 	for _, b := range fn.Blocks {
@@ -1074,7 +1146,7 @@ func ruleStaleBuf(c *Ctx, rule string, targets [][2]string) {
 			c.und(rule, key, call.Pos(), "AppendColumns is not called in a loop")
 			continue
 		}
-		nInner := 0
+		nInner, nFull := 0, 0
 		var badLoop *ssaLoop
 		for _, l := range loops {
 			if l == outer || !outer.body[l.head] {
@@ -1108,13 +1180,24 @@ func ruleStaleBuf(c *Ctx, rule string, targets [][2]string) {
 				}
 				return false
 			}
+			skips := false
 			if !writes[l.head] {
 				for _, s := range l.head.Succs {
 					if l.body[s] && walk(s) {
-						badLoop = l
+						skips = true
 					}
 				}
 			}
+			if skips {
+				badLoop = l
+			} else {
+				nFull++
+			}
+		}
+		if nFull > 0 {
+			// one loop rewrites every entry in each column (e.g. a gap pre-fill); later
+			// conditional overwrites cannot leave stale letters
+			badLoop = nil
 		}
 		switch {
 		case nInner == 0:
@@ -1620,4 +1703,157 @@ func rejects(b *ssa.BasicBlock) bool {
 func isErrorType(t types.Type) bool {
 	n, ok := t.(*types.Named)
 	return ok && n.Obj().Pkg() == nil && n.Obj().Name() == "error"
+}
+
+// ---- pendingeof (C04): fragments already accumulated are not lost at end of input ----
+
+// rulePendingEOF: ReadLine hands a physical line that fills its buffer out in
+// fragments (isPrefix) and reports the end of input separately, with no data.
+// A final line without terminator whose length is a multiple of the buffer
+// size therefore ends with fragments sitting in the accumulator when io.EOF
+// arrives. On every path consistent with err == io.EOF the accumulator must
+// be looked at before a record is returned; otherwise those letters are lost.
+func rulePendingEOF(c *Ctx, rule string, shorts ...string) {
+	keyN := map[string]int{}
+	for _, call := range lineCalls(c, shorts, "ReadLine") {
+		f := call.Parent()
+		key := numberedKey(keyN, funcName(f)+"/ReadLine/pending-fragments")
+		frag, errv := extractOf(call, 0), extractOf(call, 2)
+		if frag == nil || errv == nil {
+			c.und(rule, key, call.Pos(), "fragment or error result unused")
+			continue
+		}
+		// the accumulator: append results fed by the fragment, and everything merged with or sliced from them
+		acc := map[ssa.Value]bool{}
+		var work []ssa.Value
+		for _, r := range *frag.Referrers() {
+			if ap, ok := r.(*ssa.Call); ok && builtinCall(ap, "append") != nil && len(ap.Call.Args) == 2 && ap.Call.Args[1] == ssa.Value(frag) {
+				acc[ap] = true
+				work = append(work, ap)
+			}
+		}
+		for len(work) > 0 {
+			v := work[0]
+			work = work[1:]
+			for _, r := range *v.Referrers() {
+				if phi, ok := r.(*ssa.Phi); ok && !acc[phi] {
+					acc[phi] = true
+					work = append(work, phi)
+				}
+			}
+		}
+		if len(acc) == 0 {
+			c.und(rule, key, call.Pos(), "the fragment is not accumulated by append")
+			continue
+		}
+		var errAlloc ssa.Value
+		for _, r := range *errv.Referrers() {
+			if st, ok := r.(*ssa.Store); ok && st.Val == ssa.Value(errv) {
+				errAlloc = st.Addr
+			}
+		}
+		isErr := func(v ssa.Value, valid bool) bool {
+			if v == ssa.Value(errv) {
+				return true
+			}
+			if u, ok := v.(*ssa.UnOp); ok && u.Op == token.MUL && errAlloc != nil && u.X == errAlloc && valid {
+				return true
+			}
+			return false
+		}
+		type state struct {
+			b     *ssa.BasicBlock
+			valid bool
+		}
+		seen := map[state]bool{}
+		var leak *ssa.Return
+		var walk func(b *ssa.BasicBlock, start int, valid bool)
+		walk = func(b *ssa.BasicBlock, start int, valid bool) {
+			if leak != nil {
+				return
+			}
+			if start == 0 {
+				st := state{b, valid}
+				if seen[st] {
+					return
+				}
+				seen[st] = true
+			}
+			for i := start; i < len(b.Instrs); i++ {
+				ins := b.Instrs[i]
+				if _, ok := ins.(*ssa.Phi); ok {
+					continue
+				}
+				if _, ok := ins.(*ssa.DebugRef); ok {
+					continue
+				}
+				if ins == ssa.Instruction(call) {
+					return // the next read: nothing was returned on this path
+				}
+				for _, op := range ins.Operands(nil) {
+					if *op != nil && acc[*op] {
+						return // the accumulator is consulted on this path
+					}
+				}
+				switch ins := ins.(type) {
+				case *ssa.Store:
+					if errAlloc != nil && ins.Addr == errAlloc && ins.Val != ssa.Value(errv) {
+						valid = false
+					}
+				case *ssa.Return:
+					if len(ins.Results) > 0 && !isNilConst(ins.Results[0]) {
+						leak = ins
+					}
+					return
+				case *ssa.If:
+					take := []int{0, 1}
+					if bo, ok := ins.Cond.(*ssa.BinOp); ok && (bo.Op == token.EQL || bo.Op == token.NEQ) {
+						var other ssa.Value
+						if isErr(bo.X, valid) {
+							other = bo.Y
+						} else if isErr(bo.Y, valid) {
+							other = bo.X
+						}
+						if other != nil {
+							switch {
+							case isNilConst(other):
+								if bo.Op == token.NEQ {
+									take = []int{0}
+								} else {
+									take = []int{1}
+								}
+							case isGlobalLoad(other, "io", "EOF"):
+								if bo.Op == token.EQL {
+									take = []int{0}
+								} else {
+									take = []int{1}
+								}
+							}
+						}
+					}
+					for _, t := range take {
+						walk(b.Succs[t], 0, valid)
+					}
+					return
+				case *ssa.Panic:
+					return
+				}
+			}
+			for _, s := range b.Succs {
+				walk(s, 0, valid)
+			}
+		}
+		idx := 0
+		for i, ins := range call.Block().Instrs {
+			if ins == ssa.Instruction(call) {
+				idx = i + 1
+			}
+		}
+		walk(call.Block(), idx, true)
+		if leak != nil {
+			c.bad(rule, key, call.Pos(), fmt.Sprintf("on the err == io.EOF path a record is returned at %s without the accumulated fragments being looked at: when the final line has no terminator and exactly fills ReadLine's buffer (a multiple of 4096 bytes), its letters are still pending in the accumulator and are dropped", c.pos(leak.Pos())))
+		} else {
+			c.ok(rule, key, call.Pos(), "every path consistent with err == io.EOF that returns a record has consulted the accumulated fragments")
+		}
+	}
 }
